@@ -196,7 +196,8 @@ Proof.
     + eapply relS_bind; [apply IH, Hr|]. intros ai ap stb Hs. apply relS_ret. apply sim_ktxt, Hs.
     + eapply relS_bind; [apply sim_term, Hi|]. intros ai ap stb Hs.
       eapply relS_bind; [apply IH, Hr|]. intros bi bp stc Hs2. apply relS_ret. eapply sim_app; eassumption.
-    + discriminate.
+    + eapply relS_bind; [apply sim_term, Hi|]. intros ai ap stb Hs.
+      eapply relS_bind; [apply IH, Hr|]. intros bi bp stc Hs2. apply relS_ret. eapply sim_app; eassumption.
 Qed.
 
 End Facts.
